@@ -96,3 +96,72 @@ Proof. intros H. unfold hit. replace (mlen <? 0) with true by (symmetry; apply Z
 
 Theorem match_selected0 m mlen l i : property_match m mlen l 0 = Z.of_nat i <-> selected m mlen l i.
 Proof. apply (match_selected m mlen l 0 i). apply Z.le_refl. Qed.
+
+(* ---- the specification's matching rule computes the same answer ---- *)
+Lemma hit_name m mlen n : hit m mlen n = name_hit m mlen n.
+Proof.
+  unfold name_hit. destruct (mlen <? 0) eqn:N.
+  - apply hit_exact. apply Z.ltb_lt. exact N.
+  - apply hit_prefix. apply Z.ltb_ge. exact N.
+Qed.
+
+Lemma existsb_ext' {A} (f g : A -> bool) l : (forall a, f a = g a) -> existsb f l = existsb g l.
+Proof. intros E. induction l as [|a r IH]; cbn; [reflexivity|]. rewrite E, IH. reflexivity. Qed.
+
+Lemma first_hit_ext f g l i : (forall n, f n = g n) -> first_hit f l i = first_hit g l i.
+Proof. intros E. revert i. induction l as [|n r IH]; intros i; cbn; [reflexivity|]. rewrite E, IH. reflexivity. Qed.
+
+Definition pm_answer (m : bytes) (mlen : Z) (pos : Z) (i0 : nat) (r : option (nat * bytes * list bytes)) : Z :=
+  match r with
+  | None => - BadValue
+  | Some (i, n, rest) =>
+    if mlen <? 0 then pos + Z.of_nat (i - i0)
+    else if (mlen <=? Z.of_nat (List.length n)) && existsb (hit m mlen) rest then - BadType
+    else pos + Z.of_nat (i - i0)
+  end.
+
+Lemma first_hit_ge f l i0 i n rest : first_hit f l i0 = Some (i, n, rest) -> (i0 <= i)%nat.
+Proof.
+  revert i0. induction l as [|x r IH]; intros i0; cbn; [discriminate|].
+  destruct (f x); [intros E; inversion E; subst; lia|]. intros E. apply IH in E. lia.
+Qed.
+
+Lemma pm_first m mlen l : forall pos i0,
+  property_match m mlen l pos = pm_answer m mlen pos i0 (first_hit (hit m mlen) l i0).
+Proof.
+  induction l as [|cur rest IH]; intros pos i0; [reflexivity|].
+  cbn [first_hit]. destruct (hit m mlen cur) eqn:H.
+  - rewrite pm_step_hit by assumption. unfold pm_answer. rewrite Nat.sub_diag, Z.add_0_r. reflexivity.
+  - rewrite pm_step_miss by assumption. rewrite (IH (pos + 1) (S i0)).
+    destruct (first_hit (hit m mlen) rest (S i0)) as [[[i n] r]|] eqn:F; [|reflexivity].
+    apply first_hit_ge in F. unfold pm_answer.
+    replace (pos + 1 + Z.of_nat (i - S i0)) with (pos + Z.of_nat (i - i0)) by lia. reflexivity.
+Qed.
+
+(* mpt_property_match against the specification: the selected index, or a refusal *)
+Theorem match_spec m mlen l :
+  match spec_match m mlen l with
+  | Some i => property_match m mlen l 0 = Z.of_nat i
+  | None => property_match m mlen l 0 < 0
+  end.
+Proof.
+  rewrite (pm_first m mlen l 0 0). unfold spec_match.
+  rewrite (first_hit_ext (name_hit m mlen) (hit m mlen)) by (intros n; symmetry; apply hit_name).
+  destruct (first_hit (hit m mlen) l 0) as [[[i n] r]|]; cbn [pm_answer]; [|unfold BadValue; lia].
+  rewrite (existsb_ext' (name_hit m mlen) (hit m mlen)) by (intros a; symmetry; apply hit_name).
+  rewrite Nat.sub_0_r, Z.add_0_l.
+  destruct (mlen <? 0); [reflexivity|].
+  destruct ((mlen <=? Z.of_nat (List.length n)) && existsb (hit m mlen) r); [unfold BadType; lia|reflexivity].
+Qed.
+
+Lemma spec_match_bound m mlen l i : spec_match m mlen l = Some i -> (i < List.length l)%nat.
+Proof.
+  unfold spec_match.
+  assert (forall f l i0 i n r, first_hit f l i0 = Some (i, n, r) -> (i < i0 + List.length l)%nat) as B.
+  { intros f l0. induction l0 as [|x r0 IH]; intros i0 j n r; cbn; [discriminate|].
+    destruct (f x); [intros E; inversion E; subst; lia|]. intros E. apply IH in E. lia. }
+  destruct (first_hit (name_hit m mlen) l 0) as [[[j n] r]|] eqn:F; [|discriminate].
+  apply B in F. destruct (mlen <? 0); [intros E; inversion E; subst; lia|].
+  destruct ((mlen <=? Z.of_nat (List.length n)) && existsb (name_hit m mlen) r); [discriminate|].
+  intros E; inversion E; subst; lia.
+Qed.
